@@ -27,7 +27,7 @@ pub static DEF: PropDef = PropDef {
 	real: LIB_REAL,
 	stub: LIB_STUB,
 	assumptions: &["error texts are not compared (the statement does not require it)", "inputs stay below 2 MiB (detection above that is excluded by the statement)"],
-	expected_probes: &["family.tokens", "family.valid", "family.mutant", "family.random", "family.utf16_32", "verdict.ok", "verdict.err", "cut_inside_first_document"],
+	expected_probes: &["family.tokens", "family.valid", "family.mutant", "family.random", "family.utf16_32", "family.dupkeys", "verdict.ok", "verdict.err", "cut_inside_first_document"],
 	needs_bins: false,
 	watchdog_s: 30,
 };
@@ -111,6 +111,24 @@ fn gen(seed: u64, idx: u64, t: Tier) -> J {
 			bytes = b;
 			f = cf;
 			family = "mutant";
+		} else if fam < 63 {
+			// JSON objects that repeat a key (mostly for the TOML target, where the two
+			// ways of building a toml::Value treat repeats differently).
+			let cfg = GenCfg { max_depth: 2, max_len: 3, ..GenCfg::toml_safe() };
+			let mut members: Vec<(String, String)> = vec![];
+			for _ in 0..r.range(1, 4) {
+				let k = gen::to_json(&gen::V::S(gen::gen_string(&mut r, &cfg)), &mut r, false);
+				let v = gen::to_json(&gen::gen_value(&mut r, &cfg, 1), &mut r, false);
+				members.push((k, v));
+			}
+			let i = r.usize_below(members.len());
+			let again = (members[i].0.clone(), gen::to_json(&gen::gen_value(&mut r, &cfg, 1), &mut r, false));
+			let at = r.range(i + 1, members.len());
+			members.insert(at, again);
+			let body: Vec<String> = members.iter().map(|(k, v)| format!("{k}: {v}")).collect();
+			bytes = format!("{{{}}}", body.join(", ")).into_bytes();
+			f = Fmt::Json;
+			family = "dupkeys";
 		} else if fam < 68 {
 			let n = r.range(0, 40);
 			bytes = (0..n).map(|_| r.next() as u8).collect();
@@ -155,7 +173,7 @@ fn gen(seed: u64, idx: u64, t: Tier) -> J {
 		5..=7 => None,
 		_ => Some(*r.pick(&ALL_FMTS)),
 	};
-	let to = if r.chance(1, 5) { Fmt::Toml } else { *r.pick(&crate::scenario::STREAM_FMTS) };
+	let to = if r.chance(1, 5) || (family == "dupkeys" && r.chance(3, 4)) { Fmt::Toml } else { *r.pick(&crate::scenario::STREAM_FMTS) };
 	let sched = loop {
 		let s = gen::gen_sched(&mut r, bytes.len());
 		if !s.is_whole() {
@@ -181,6 +199,7 @@ fn eval(case: &J) -> Eval {
 			"random" => "family.random",
 			"utf16_32" => "family.utf16_32",
 			"depth" => "family.depth",
+			"dupkeys" => "family.dupkeys",
 			_ => "family.other",
 		},
 		1,
